@@ -77,7 +77,7 @@ def _bodies(ctx, rng):
         for chk in ("crc", "sum"):
             for _ in range(6):
                 yield _rand_body(rng, length), chk
-    for _ in range(1500 if quick else 2000000):
+    for _ in range(1500 if quick else 4000000):
         yield _rand_body(rng, rng.randint(16, 40)), rng.choice(["crc", "sum"])
 
 
@@ -113,7 +113,7 @@ def _check_values(ctx, rng):
 
 def _histories(ctx, rng):
     quick = ctx.tier == "quick"
-    for _ in range(150 if quick else 30000):
+    for _ in range(150 if quick else 60000):
         b = _rand_body(rng, rng.randint(16, 40))
         # the same report twice with a local (never applied) edit of the attributes in between
         yield {"body": bytes(b), "check": rng.choice(["crc", "sum"]), "prev_body": bytes(b), "edit": True}
